@@ -24,6 +24,8 @@ CONTRACTS = [
     ('deal.typo', 'CAttr "deal" "typo"', 'unsupported:AttributeError'), ('notdeal.pure', 'CAttr "notdeal" "pure"', 'unsupported:NameError'),
     ("deal.has('stdout', message='m')", 'CCall (CAttr "deal" "has") true true ["stdout"]', 'unsupported'),
     ("deal.safe(message='m')", 'CCall (CAttr "deal" "safe") true true []', 'unsupported'),
+    ('deal.has', 'CAttr "deal" "has"', 'unsupported'), ('deal.raises', 'CAttr "deal" "raises"', 'unsupported'), ('deal.pre', 'CAttr "deal" "pre"', 'unsupported'),
+    ('deal.chain', 'CAttr "deal" "chain"', 'unsupported'), ('deal.ensure', 'CAttr "deal" "ensure"', 'unsupported'),
     ('deal.introspection.unwrap', 'CNested', 'crash'), ("deal.has(markers='io')", 'CCall (CAttr "deal" "has") true true []', 'unsupported:TypeError?'),
 ]
 
@@ -63,6 +65,7 @@ def gen_module(rnd, name):
     elif behaviour == 'raise': lines.append("raise ValueError('boom')")
     elif behaviour == 'socket': lines.append('import socket\nsocket.socket().close()')
     if behaviour != 'clean': body_coq.append('TOther')
+    if behaviour != 'raise': lines.append('c20_done = 1'); body_coq.append('TOther')
     src = '\n'.join(lines) + '\n'
     cq = ('{| m_body := [' + '; '.join(body_coq) + ']; m_calls_module_load := ' + ('None' if calls is None else f'(Some {calls})') +
           '; m_arg_error := ' + ('None' if arg_error is None else f'(Some "{arg_error}")') +
